@@ -353,6 +353,15 @@ def impl(op: str) -> str:
             return "ok " + dump_tx(tx)
         if k == "c05_keychain":
             return _keychain(a[1])
+        if k == "c05_fastcheck":
+            # the driver evaluates the model with a fast secp256k1 instance; this op ties that instance and the C01 model instance to pycoin
+            d, z = int(a[1]), int(a[2])
+            try:
+                r, s = G.sign(d, z)
+            except ValueError:
+                return "ok ValueError ValueError - -"
+            v = G.verify(d * G, z, (r, s + 1 if a[3] == "1" else s))
+            return "ok %d.%d %d.%d %d %d" % (r, s, r, s, v, v)
     except Exception as e:  # noqa: BLE001
         return "err " + type(e).__name__
     return "bad-op"
@@ -965,6 +974,8 @@ def gen(ctx, emit):
     def fresh(n):
         return [rng.randrange(1, N_ORDER) for _ in range(n)]
 
+    for _ in range(ctx.n(4, 40)):
+        emit("c05_fastcheck %d %d %d" % (rng.randrange(1, N_ORDER), rng.randrange(0, 1 << 256) if rng.random() < 0.9 else 0, rng.randrange(2)))
     gen_der(ctx, emit, ctx.n(60, 3000))
     gen_sign_solver(ctx, emit, ctx.n(30, 600))
     gen_keychain(ctx, emit, ctx.n(20, 600))
